@@ -3,6 +3,7 @@
 package main
 
 import (
+	"encoding/json"
 	"fmt"
 	"os"
 	"path/filepath"
@@ -64,6 +65,27 @@ func main() {
 		os.Exit(2)
 	}
 	c := core.NewCtx(prop, tier)
+	if tier == "thorough" {
+		c.Load("./...")
+	}
 	meta := chk.Run(c)
+	if tier == "thorough" {
+		rules.Thorough(c, prop)
+		// self-validation results written by tools/mut.py (run by ./check before this binary)
+		if b, err := os.ReadFile(filepath.Join(filepath.Dir(os.Args[0]), "validation-"+prop+".json")); err == nil {
+			var val map[string]any
+			if json.Unmarshal(b, &val) == nil {
+				if c.Extra == nil {
+					c.Extra = map[string]any{}
+				}
+				c.Extra["self_validation"] = val
+				if bad, _ := val["failed"].(float64); bad > 0 {
+					fmt.Fprintf(os.Stderr, "CHECK-BROKEN: %v of the checker's own variants did not behave as required (see %s)\n", bad, "bin/validation-"+prop+".json")
+					c.Finish(verifDir, meta)
+					os.Exit(2)
+				}
+			}
+		}
+	}
 	os.Exit(c.Finish(verifDir, meta))
 }
